@@ -241,3 +241,126 @@ func workMutantsScan(s *Seed, thorough bool) []mutant {
 	}
 	return out
 }
+
+// ---- work.pkt: a well-formed packet header that declares a contribution far beyond the tile data ----
+//
+// The stream keeps the seed's SIZ segment and replaces everything else by a minimal main header
+// (0 decomposition levels, one 64x64 code-block, one layer) and ONE packet whose header raises
+// Lblock with a long comma code and then declares a length of up to 2^32 bytes for its single
+// code-block, followed by 16 body bytes. Nothing in a marker segment is unusual; only the packet
+// header (bit level, with 0xFF stuffing) carries the large number. A decoder that is right clips
+// the length to the bytes it has; memory must stay a function of the input length and S.
+
+type pktBits struct {
+	out        []byte
+	cur        byte
+	free, size int
+}
+
+func (w *pktBits) bit(b int) {
+	if w.size == 0 {
+		w.size, w.free = 8, 8
+	}
+	w.free--
+	if b != 0 {
+		w.cur |= 1 << uint(w.free)
+	}
+	if w.free == 0 {
+		w.flush()
+	}
+}
+
+func (w *pktBits) flush() {
+	w.out = append(w.out, w.cur)
+	w.size = 8
+	if w.cur == 0xFF {
+		w.size = 7
+	}
+	w.free, w.cur = w.size, 0
+}
+
+func (w *pktBits) bits(v uint64, n int) {
+	for i := n - 1; i >= 0; i-- {
+		w.bit(int((v >> uint(i)) & 1))
+	}
+}
+
+func (w *pktBits) bytes() []byte {
+	if w.size != 0 && w.free != w.size {
+		w.flush()
+	}
+	if n := len(w.out); n > 0 && w.out[n-1] == 0xFF {
+		w.out = append(w.out, 0)
+	}
+	return w.out
+}
+
+func workPacketMutants(s *Seed, thorough bool) []mutant {
+	b := s.Data
+	segs, _ := j2kSegments(b)
+	var siz *segment
+	for i := range segs {
+		if segs[i].marker == 0x51 && segs[i].plen >= 38 && siz == nil {
+			siz = &segs[i]
+		}
+	}
+	if siz == nil || be16at(b, siz.payload+34) != 1 {
+		return nil
+	}
+	prec := int(b[siz.payload+36]&0x7F) + 1
+	var out []mutant
+	lens := []int{12, 24, 28, 30, 31, 32}
+	if thorough {
+		lens = []int{8, 12, 16, 20, 24, 26, 27, 28, 29, 30, 31, 32, 33, 40}
+	}
+	for _, lb := range lens {
+		for _, passes := range []int{1, 2} {
+			for _, allOnes := range []bool{false, true} {
+				if allOnes && !thorough && lb != 31 {
+					continue
+				}
+				var cs []byte
+				cs = append(cs, 0xFF, 0x4F)
+				cs = append(cs, b[siz.off:siz.payload+siz.plen]...)
+				cs = append(cs, 0xFF, 0x52, 0, 12, 0, 0, 0, 1, 0, 0, 4, 4, 0, 1)
+				cs = append(cs, 0xFF, 0x5C, 0, 4, 0x40, byte(prec<<3))
+				w := &pktBits{}
+				w.bit(1) // packet not empty
+				w.bit(1) // inclusion tag tree of the single code-block
+				w.bit(1) // zero bit planes: 0
+				extra := 0
+				if passes == 1 {
+					w.bit(0)
+				} else {
+					w.bits(2, 2) // "10": two passes, one more length bit
+					extra = 1
+				}
+				for i := 0; i < lb-3; i++ {
+					w.bit(1)
+				}
+				w.bit(0)
+				n := lb + extra
+				v := uint64(1) << uint(n-1)
+				if allOnes {
+					v = (uint64(1) << uint(n)) - 1
+				}
+				w.bits(v, n)
+				pkt := w.bytes()
+				for i := 0; i < 16; i++ {
+					pkt = append(pkt, byte(0x11*i)&0x7F)
+				}
+				psot := 12 + 2 + len(pkt)
+				cs = append(cs, 0xFF, 0x90, 0, 10, 0, 0, byte(psot>>24), byte(psot>>16), byte(psot>>8), byte(psot), 0, 1)
+				cs = append(cs, 0xFF, 0x93)
+				cs = append(cs, pkt...)
+				cs = append(cs, 0xFF, 0xD9)
+				kind := "hi"
+				if allOnes {
+					kind = "ones"
+				}
+				out = append(out, mutant{data: cs, mut: fmt.Sprintf("work.pkt.len%d.p%d.%s", lb, passes, kind)})
+			}
+		}
+	}
+	return out
+}
